@@ -63,7 +63,22 @@ class RayMeshIntersector:
         if return_locations:
             if len(index_tri) == 0:
                 return index_tri, index_ray, locations
-            unique = grouping.unique_rows(np.column_stack((locations, index_ray)))[0]
+            # a hit on a shared edge is reported by both neighbours, which the
+            # ray crosses in the same sense: keep one of them. Triangles crossed
+            # at the same point in opposite senses (the walls of two solids that
+            # touch) are separate crossings.
+            directions = np.asanyarray(ray_directions, dtype=np.float64)[index_ray]
+            sense = util.diagonal_dot(self.mesh.face_normals[index_tri], directions) > 0
+            # compare the locations in units of the mesh size: `unique_rows`
+            # rounds `value * 1e8` to int64, which overflows for coordinates
+            # above 9.2e10 and merges distinct hits of small meshes
+            scale = float(self.mesh.scale)
+            if not (np.isfinite(scale) and scale > 0.0):
+                scale = 1.0
+            relative = (locations - self.mesh.bounds[0]) / scale
+            unique = grouping.unique_rows(
+                np.column_stack((relative, index_ray, sense))
+            )[0]
             return index_tri[unique], index_ray[unique], locations[unique]
         return index_tri, index_ray
 
